@@ -254,9 +254,9 @@ abbrev Store := Name → Val
 
 def Store.set (σ : Store) (x : Name) (v : Val) : Store := fun y => if y = x then v else σ y
 
-/-- how a block ends -/
+/-- how a block ends: a transfer to another block (with the store it leaves), or a return -/
 inductive Next
-  | goto (l : Nat)
+  | goto (l : Nat) (σ : Store)
   | ret (v : Val)
 
 def findBlock {α} (bs : List (Nat × α)) (l : Nat) : Option α :=
@@ -317,13 +317,13 @@ def mExec (call : String → List Val → Option Val) : List MIns → Store → 
     match r with
     | some w => mExec call rest (σ.set to w)
     | none => none
-  | .jump l :: _, _ => some (.goto l)
+  | .jump l :: _, σ => some (.goto l σ)
   | .switch x brs d :: _, σ =>
     match switchKey (σ x) with
     | some k =>
       match selectBr k brs with
-      | some l => some (.goto l)
-      | none => d.map .goto
+      | some l => some (.goto l σ)
+      | none => d.map (fun l => .goto l σ)
     | none => none
   | .ret x :: _, σ => some (.ret (σ x))
   | .drop _ :: rest, σ => mExec call rest σ
@@ -335,7 +335,7 @@ def mLoop (call : String → List Val → Option Val) (blocks : List (Nat × Lis
     match findBlock blocks l with
     | some ins =>
       match mExec call ins σ with
-      | some (.goto l') => mLoop call blocks k l' σ
+      | some (.goto l' σ') => mLoop call blocks k l' σ'
       | some (.ret v) => some v
       | none => none
     | none => none
@@ -379,10 +379,10 @@ def lExec (call : String → List Val → Option Val) : List LIns → Store → 
       | some (t, _) => lExec call rest (σ.set t w)
       | none => lExec call rest σ
     | none => none
-  | .jump l :: _, _ => some (.goto l)
+  | .jump l :: _, σ => some (.goto l σ)
   | .switch x brs d :: _, σ =>
     match switchKey (lVal σ x) with
-    | some k => some (.goto ((selectBr k brs).getD d))
+    | some k => some (.goto ((selectBr k brs).getD d) σ)
     | none => none
   | .ret none :: _, _ => some (.ret .unit)
   | .ret (some v) :: _, σ => some (.ret (lVal σ v))
@@ -393,7 +393,7 @@ def lLoop (call : String → List Val → Option Val) (blocks : List (Nat × Lis
     match findBlock blocks l with
     | some ins =>
       match lExec call ins σ with
-      | some (.goto l') => lLoop call blocks k l' σ
+      | some (.goto l' σ') => lLoop call blocks k l' σ'
       | some (.ret v) => some v
       | none => none
     | none => none
